@@ -367,7 +367,8 @@ def config_states(rng, home_token="@HOME@"):
         St("base-usd", "bytes", b"base-currency=usd\n", dict(base="usd")),
         St("base-absent", "bytes", b"base-currency=zzz\n", dict(base="zzz")),
         St("nosave", "bytes", b"save-history=false\n", dict(save=False)),
-        St("base-own", "bytes", b"base-currency=qzq\n", dict(base="qzq")),      # a currency only the user's table knows
+        St("base-own", "bytes", b"base-currency=qzq\n", dict(base="qzq")),
+        St("base-caps", "bytes", b"base-currency=USD\n", dict(base="USD")),      # a currency only the user's table knows
         St("huge", "bytes", big, dict(precision=5)),
         St("spaces", "bytes", " \tprecision 　=\x0b 7 \x0c\n".encode(), dict(precision=7)),
         St("unidigits", "bytes", "precision=٣\n".encode(), dict(precision=3)),
@@ -405,6 +406,8 @@ def currency_states(rng):
         St("own-valid", "bytes", ("qzq,qzqcoin,4.0\n" + T1_TEXT).encode(), dict(table=dict(T1, qzq=4.0))),
         St("own-then-short-row", "bytes", ("qzq,qzqcoin,4.0\n" + T1_TEXT + "xyz,onlytwo\n").encode()),
         St("own-then-bad-float", "bytes", ("qzq,qzqcoin,4.0\n" + T1_TEXT + "xyz,xyzname,notanumber\n").encode(), dict(warn=True)),
+        St("caps", "bytes", b"USD,usdollar,1\nEUR,euro,2.0\nGBP,britishpound,0.5\n", dict(table={"USD": 1.0, "EUR": 2.0, "GBP": 0.5})),
+        St("caps-mixed", "bytes", b"usd,usdollar,1\nEur,euro,2.0\ngbp,britishpound,0.5\n", dict(table={"usd": 1.0, "Eur": 2.0, "gbp": 0.5})),
         St("no-eur", "bytes", b"usd,usdollar,1\ngbp,britishpound,0.5\n", dict(table={"usd": 1.0, "gbp": 0.5})),
         St("whitespace", "bytes", b" \n\t\n\x0b\n"),
         St("parentfile", "parentfile"),
